@@ -77,7 +77,7 @@ def run(tier, seed, replay):
             b2 = BosonicBath(qb, [0.03], [1.9], [], [], combine=False)
             arrangements = [[f1, b1, f2], [b1, f1, b2, f2], [f1, f2, b1], [b2, f2, b1, f1], [f2, b1, b2, f1], [b1, b2, f1, f2]]
             baths = arrangements[order % len(arrangements)]
-            depth = 2 if tier == "quick" else 3
+            depth = 3 if (tier != "quick" or order == 0) else 2       # signs with two and more excitations before the exponent need depth 3
             try:
                 with warnings.catch_warnings():
                     warnings.simplefilter("ignore")
@@ -177,6 +177,39 @@ def run(tier, seed, replay):
             dd = max(np.abs(a - b).max() for a, b in zip(ref_f, st))
             if dd > 1e-7:
                 v("rewriting:mixed-order", f"listing the same fermionic and bosonic baths in another order (arrangement {order}) changes the system state by {dd:.2e}", {"arrangement": order})
+    # two interacting fermionic levels with two leads at depths 3 (and 4): the order of the baths, the split of one lead
+    # into two baths with the same coupling operator and both parities of the state
+    n1, n2 = d1.dag() * d1, d2.dag() * d2
+    Hff = 0.4 * n1 - 0.2 * n2 + 0.35 * (d1.dag() * d2 + d2.dag() * d1) + 0.5 * n1 * n2
+    for odd in (False, True):
+        rho_e = qutip.ket2dm(qutip.tensor(qutip.basis(2, 0), (qutip.basis(2, 0) + qutip.basis(2, 1)).unit())) if not odd else d1 * 0.5 + d2 * 0.25
+        for depth in ((3,) if tier == "quick" else (3, 4)):
+            La = FermionicBath(d1, [0.11], [0.9], [0.12], [0.8])
+            Lb = FermionicBath(d1, [0.07], [1.4], [0.05], [1.3])
+            Lab = FermionicBath(d1, [0.11, 0.07], [0.9, 1.4], [0.12, 0.05], [0.8, 1.3])
+            Lba = FermionicBath(d1, [0.07, 0.11], [1.4, 0.9], [0.05, 0.12], [1.3, 0.8])
+            Rr = FermionicBath(d2, [0.09], [1.1], [0.08], [1.2])
+            reff = None
+            for nm, baths in (("[L, R]", [Lab, Rr]), ("[R, L]", [Rr, Lab]), ("[L pairs reversed, R]", [Lba, Rr]), ("[La, R, Lb]", [La, Rr, Lb]), ("[Lb, La, R]", [Lb, La, Rr])):
+                try:
+                    with warnings.catch_warnings():
+                        warnings.simplefilter("ignore")
+                        with core.time_limit(600):
+                            out = HEOMSolver(Hff, baths, max_depth=depth, odd_parity=odd, options=OPT).run(rho_e, [0, 0.7, 1.5])
+                except core.CaseTimeout:
+                    raise
+                except Exception as e:
+                    v("fermionic-run-raises", f"{type(e).__name__}: {e}"[:200])
+                    continue
+                stf = [x.full() for x in out.states]
+                rep.evaluations += 1
+                rep.count("fermionic-leads-order")
+                if reff is None:
+                    reff = stf
+                else:
+                    dd = max(np.abs(a - b).max() for a, b in zip(reff, stf))
+                    if dd > 1e-7:
+                        v("rewriting:fermionic-leads", f"two fermionic levels with two leads at depth {depth} (odd_parity={odd}): writing the leads as {nm} instead of [L, R] changes the system state by {dd:.2e}", {"depth": depth, "odd": odd, "arrangement": nm})
     # merging two exponents of equal rate: every pair of kinds, in both orders
     from qutip.core.environment import CFExponent
     for ka in ("R", "I", "RI"):
